@@ -133,7 +133,20 @@ def find_sites(fi: FuncInfo) -> List[Site]:
     return sites
 
 
-def _role_by_name(name: str) -> Optional[str]:
+def _role_by_name(name: str, fi: Optional[FuncInfo] = None) -> Optional[str]:
+    # numbered pairs: <stem>0/<stem>1 or <stem>1/<stem>2 - which number is the lower end depends on the twin that
+    # occurs in the same function (ix0, ix1 -> ix1 is the UPPER end; ix1, ix2 -> ix1 is the LOWER end)
+    m = re.match(r"^(_?[a-z]+?)([012])_?$", name)
+    if m and fi is not None:
+        if not hasattr(fi, "_all_names"):
+            fi._all_names = {x.id for x in ast.walk(fi.node) if isinstance(x, ast.Name)} | {a.arg for a in ast.walk(fi.node) if isinstance(a, ast.arg)}  # type: ignore[attr-defined]
+        stem, d = m.group(1), int(m.group(2))
+        sfx = name[len(stem) + 1:]
+        has = lambda k: f"{stem}{k}{sfx}" in fi._all_names  # type: ignore[attr-defined]  # noqa: E731
+        if d == 1 and has(0) and not has(2):
+            return "UPPER" if (LOWER_NAMES.match(f"{stem}0{sfx}") or LOWER_NAMES.match(name) or UPPER_NAMES.match(name)) else None
+        if d == 0 and has(1) and (LOWER_NAMES.match(name) or LOWER_NAMES.match(f"{stem}1{sfx}")):
+            return "LOWER"
     if LOWER_NAMES.match(name):
         return "LOWER"
     if UPPER_NAMES.match(name):
@@ -200,13 +213,13 @@ def infer_role(site: Site) -> None:
         if isinstance(tg, ast.Tuple) and isinstance(st.value, ast.Tuple) and top in st.value.elts:
             e = tg.elts[st.value.elts.index(top)]
             names = [e.id] if isinstance(e, ast.Name) else names
-        roles = {_role_by_name(nm) for nm in names}
+        roles = {_role_by_name(nm, fi) for nm in names}
         roles.discard(None)
         if len(roles) == 1:
             site.role, site.how = roles.pop(), f"assigned to `{', '.join(names)}`"
             return
     if isinstance(st, ast.AugAssign) and isinstance(st.target, ast.Name):
-        r = _role_by_name(st.target.id)
+        r = _role_by_name(st.target.id, fi)
         if r:
             site.role, site.how = r, f"accumulated into `{st.target.id}`"
             return
@@ -451,9 +464,13 @@ def rule_clamps(prog: Program) -> List[Instance]:
             continue
         sb = _slice_bounds(f)
         if mode == "shape":
-            # the clamped variant: both bounds are min(dim, .)
-            cl = [(n, lo, hi) for n, lo, hi in sb if _is_clamp(lo, "min", f) is not None or _is_clamp(hi, "min", f) is not None]
-            ok = bool(cl) and all(_is_clamp(lo, "min", f) is not None and _is_clamp(hi, "min", f) is not None for _, lo, hi in cl)
+            # the clamped variant: both bounds are min(dim, .); the slice may be built in a local helper
+            sbn = [(g, x) for g in [f] + list(f.nested.values()) for x in _slice_bounds(g)]
+            cl = [(g, n, lo, hi) for g, (n, lo, hi) in sbn if _is_clamp(lo, "min", g) is not None or _is_clamp(hi, "min", g) is not None]
+            if not cl:
+                out.append(Instance("R-ROUND", f"{q}#clamp:shape", UNDET, "no slice with a min(dim, .) bound found in the function or its local helpers", f.where()))
+                continue
+            ok = all(_is_clamp(lo, "min", g) is not None and _is_clamp(hi, "min", g) is not None for g, _, lo, hi in cl)
             out.append(Instance("R-ROUND", f"{q}#clamp:shape", OK if ok else BAD, what if ok else "when a shape is supplied, both ends of the up-scaled slice must be min(dim, .)", f.where()))
             continue
         if not sb:
